@@ -837,6 +837,62 @@ def rel_edges(cd, pred_a, pred_b, prov):
     return out
 
 
+def as_min(body, op, depth=4):
+    """If the operand is min(x, y) - a `min` call (method or free function, either order) or a local that is `x` on the
+    path where x <= y (x < y) and `y` on the other path of one comparison - return the two operands (x, y); else None."""
+    pl = op_place(op)
+    if pl is None or pl["p"] or depth < 0:
+        return None
+    ds = body.defs().get(pl["l"], [])
+    if len(ds) == 1:
+        bi, si, kind, payload = ds[0]
+        if kind == "assign" and payload["rv"]["k"] == "use":
+            return as_min(body, payload["rv"]["a"][0], depth - 1)
+        if kind == "call" and (payload.decl_s or "").split("::")[-1] == "min" and len(payload.args) == 2:
+            return (payload.args[0], payload.args[1])
+        return None
+    if len(ds) == 2 and all(d[2] == "assign" and d[3]["rv"]["k"] == "use" for d in ds):
+        (b1, _, _, p1), (b2, _, _, p2) = ds
+        x, y = p1["rv"]["a"][0], p2["rv"]["a"][0]
+        for cd in conds(body):
+            if cd.kind != "cmp" or cd.op not in ("Lt", "Le", "Gt", "Ge"):
+                continue
+            for (vx, bx, vy, by) in ((x, b1, y, b2), (y, b2, x, b1)):
+                # vx chosen in block bx, vy in block by: need bx on the edge where vx <= vy, by on the other
+                if _same_operand_value(body, cd.lhs, vx) and _same_operand_value(body, cd.rhs, vy):
+                    small_t = cd.true_target() if cd.op in ("Lt", "Le") else cd.false_target()
+                    big_t = cd.false_target() if cd.op in ("Lt", "Le") else cd.true_target()
+                elif _same_operand_value(body, cd.lhs, vy) and _same_operand_value(body, cd.rhs, vx):
+                    small_t = cd.true_target() if cd.op in ("Gt", "Ge") else cd.false_target()
+                    big_t = cd.false_target() if cd.op in ("Gt", "Ge") else cd.true_target()
+                else:
+                    continue
+                if small_t is not None and big_t is not None and bx in edge_dominated(body, cd.bb, small_t) and by in edge_dominated(body, cd.bb, big_t):
+                    return (vx, vy)
+    return None
+
+
+def _same_operand_value(body, a, b_, depth=4):
+    """Do two operands denote the same value (same constant, same place, or single-definition copies of one)?"""
+    def canon(o, d):
+        c = o.get("const")
+        if c is not None:
+            return ("c", c.get("v"), c.get("def"))
+        pl = op_place(o)
+        if pl is None:
+            return None
+        if not pl["p"] and d > 0:
+            ds = body.defs().get(pl["l"], [])
+            if len(ds) == 1 and ds[0][2] == "assign" and ds[0][3]["rv"]["k"] == "use":
+                return canon(ds[0][3]["rv"]["a"][0], d - 1)
+            if len(ds) == 1 and ds[0][2] == "call":
+                c_ = ds[0][3]
+                return ("call", c_.name, tuple(canon(x, d - 1) for x in c_.args))
+        from .core import place_key
+        return ("p", place_key(pl))
+    return canon(a, depth) is not None and canon(a, depth) == canon(b_, depth)
+
+
 def comparison_sites(body, pred, prov=None):
     """Equality comparisons `a == b` / `a != b` (MIR BinaryOp or PartialEq::eq/ne call) whose operand roots satisfy
     `pred(roots_a, roots_b)` in either order.  -> [(start_bb, start_si, result_local, value_meaning_equal, site_bb)]:
